@@ -343,6 +343,15 @@ func c06Run(t *testing.T, sc Scenario, res *Result) {
 	defer os.RemoveAll(other)
 	moved := filepath.Join(other, "moved-"+fmt.Sprint(sc.Seed&0xffff)+".fail")
 	useMoved := r.chance(1, 2)
+	if mix(sc.Seed, 0x910b)%3 == 0 {
+		// a path is a path: characters that mean something to a glob ("run[42]", "a*b", "what?") are part of the name
+		sub := filepath.Join(other, pick(r, []string{"run[42]", "a*b", "what?", "x[!y]z", "back\\slash"}))
+		if err := os.MkdirAll(sub, 0o775); err == nil {
+			moved = filepath.Join(sub, "given[1].fail")
+			useMoved = true
+			res.inc("explicit_paths_with_glob_characters")
+		}
+	}
 	if useMoved {
 		b, _ := os.ReadFile(abs)
 		os.WriteFile(moved, b, 0o644)
